@@ -19,6 +19,13 @@ sequence: every schedule and any number of spurious wake-ups.
   spurious wake-ups that is continued as long as a non-spurious operation is enabled ends, and it
   ends with dsh() returned.
 
+The connect outcome is not part of this LTS (a failed connect goes through the same operations); where an
+outcome matters (the Timed LTS of C07, the monitors) it is success / failure, never a descriptor: the
+correspondence maps `rcmd_connect() ≥ 0` to success, and the descriptor VALUE the scripted transport returns is
+generated over {0, 1, 2, ≥ 3} (harness key `lowfds`: pdsh started with stdin / all of stdio closed, the lowest
+free number is handed out first and given back by close()); `checks/c03.py` also runs the real `pdsh -R exec`
+with descriptor 0 closed.
+
 Not proved here: that dsh.c refines the LTS (trace correspondence of `checks/c03.py`); fairness of
 the real scheduler; workers whose command never ends, `pthread_create` failure and cancellation
 (^C^Z, C20) are outside the model; fanout 0 (the dispatcher then waits forever: C18).
